@@ -261,7 +261,7 @@ def _call(fn, fam, x, P, use_defaults, **kw):
     return f(x, **P, **kw)
 
 
-def _close(got, ref, rtol, what, key, case):
+def _close(got, ref, rtol, what, key, case, atol=0.0):
     try:
         g = float(np.asarray(got).reshape(-1)[0]) if np.ndim(got) else float(got)
     except Exception as e:
@@ -269,7 +269,7 @@ def _close(got, ref, rtol, what, key, case):
     r = float(ref)
     if math.isinf(r) and g == r:
         return
-    if not math.isfinite(g) or abs(g - r) > rtol * (abs(r) + 1e-300) + 1e-300:
+    if not math.isfinite(g) or abs(g - r) > rtol * (abs(r) + 1e-300) + 1e-300 + atol:
         raise PropertyViolation(key, "%s = %.17g but reference = %.17g" % (what, g, r), case)
 
 
@@ -354,7 +354,8 @@ def _oracle_one(case, rec, count=True):
                 if not (np.isneginf(got)):
                     raise PropertyViolation(key, "log density outside support is %r, expected -inf" % (got,), case)
             else:
-                _close(got, mp.log(ref), 1e-9, "d%s(%r,%r,log=True)" % (fam, x, P), key, case)
+                # (a log density may be ~0 by cancellation, e.g. log(2) - 2x at x = log(2)/2: absolute floor at rounding level)
+                _close(got, mp.log(ref), 1e-9, "d%s(%r,%r,log=True)" % (fam, x, P), key, case, atol=1e-13 * (1 + abs(float(x))))
         else:
             _close(got, ref, 1e-9, "d%s(%r,%r)" % (fam, x, P), key, case)
     elif kind == "p":
